@@ -33,6 +33,8 @@ Variants == {"genuine",        \* produced and sealed by X itself, newer than an
              "replayed-after-rekey", \* ... and after the victim itself completed a new key exchange with X in between
              "forged-at-newest-stamp", \* made by a router without X's key as a HOP ping (the class for which an immediate duplicate is tolerated)
                                \* claiming X, carrying exactly the time stamp of X's newest accepted signed frame
+             "resealed-after-hop-learning", \* X became known to the victim only as a RELAY named in a hop record of a genuine
+                               \* announcement (first contact through gossip); the ping is produced by the next deeper relay
              "transit",        \* only TTL / flow flags changed (must stay effective)
              "first-genuine",  \* first contact: header key hashes to the (unknown) source address
              "first-badkey"}   \* first contact: header carries a key that does not hash to the source
@@ -77,7 +79,7 @@ Case(t, v, x, table) ==
   /\ (t \in {"disconnect-down", "disconnect-list"} \/ table = {[dst |-> 1, nh |-> 1, path |-> <<0, 1>>], [dst |-> 2, nh |-> 2, path |-> <<0, 2>>], [dst |-> 3, nh |-> 3, path |-> <<0, 3>>]})
   /\ (t \in {"hello-req", "hello-resp", "announce", "disconnect-down", "disconnect-list"} \/ x \in {1, 5})   \* other types: one source suffices
   /\ (t = "announce" => x \in Peers)
-  /\ (FirstContact(v) <=> x = 5)
+  /\ ((FirstContact(v) \/ v = "resealed-after-hop-learning") <=> x = 5)
   /\ (x = 5 => t \in {"hello-req", "pong-req", "err-generic", "disconnect-down"})
   /\ act' = [name |-> "case", type |-> t, variant |-> v, src |-> x, table |-> table,
              effect |-> Allowed(t, v, x, table)]
